@@ -45,7 +45,19 @@ def short_class(name):
 # independent reader of a test's parameters (does not use cartgraph helpers)
 # --------------------------------------------------------------------------------------------
 
-def read_objects(params):
+def permanent_vms(node):
+    """Which vms of a node are permanent, from the vm objects' own (parser given) parameters.
+
+    The joined parameters of a multi-vm test carry an unsuffixed ``permanent_vm`` of the last vm,
+    so the node's parameters alone cannot tell."""
+    out = set()
+    for o in getattr(node, "objects", []):
+        if o.key == "vms" and o.params.get("permanent_vm", "no") == "yes":
+            out.add(o.suffix)
+    return out
+
+
+def read_objects(params, permanent=None):
     """Per stateful object what a test requires / produces, read from its flat parameters.
 
     Mirrors ``states.setup._parametric_object_iteration`` (vms, then images), nothing from
@@ -56,10 +68,11 @@ def read_objects(params):
     for vm in params.objects("vms"):
         vm_params = params.object_params(vm)
         vm_id = vm_params.get("object_id", vm)
-        permanent = vm_params.get("permanent_vm", "no") == "yes"
+        is_permanent = (vm in permanent) if permanent is not None else \
+            (vm_params.get("permanent_vm", "no") == "yes" and len(params.objects("vms")) == 1)
         typed = vm_params.object_params("vms")
         objs.append({
-            "vm": vm, "image": "", "type": "vms", "oid": vm_id, "permanent": permanent,
+            "vm": vm, "image": "", "type": "vms", "oid": vm_id, "permanent": is_permanent,
             "get_state": typed.get("get_state", "") or "",
             "set_state": typed.get("set_state", "") or "",
             "unset_mode": typed.get("unset_mode", "ri"),
@@ -72,7 +85,7 @@ def read_objects(params):
             image_params = vm_params.object_params(image)
             typed = image_params.object_params("images")
             objs.append({
-                "vm": vm, "image": image, "type": "images", "oid": vm_id, "permanent": permanent,
+                "vm": vm, "image": image, "type": "images", "oid": vm_id, "permanent": is_permanent,
                 "get_state": typed.get("get_state", "") or "",
                 "set_state": typed.get("set_state", "") or "",
                 "unset_mode": typed.get("unset_mode", "ri"),
@@ -443,7 +456,7 @@ async def fake_run_test_task(runner, node):
     serial = sim.serial
     if sim.serial - sim.serial_at_epoch > sim.exec_budget:
         raise ExecBudgetExceeded(f"more than {sim.exec_budget} executions in one job")
-    objs = read_objects(params)
+    objs = read_objects(params, permanent_vms(node))
 
     # availability of every required state, judged on the world as of this instant
     missing = []
